@@ -1344,26 +1344,41 @@ class NLargest(ReductionConstantDim):
         return self.chunk_kwargs
 
 
-def _nfirst(df, columns, n, ascending, na_position="last"):
+def _nfirst(df, columns, n, ascending, na_position="last", ignore_index=False):
     return df.sort_values(
-        by=columns, ascending=ascending, na_position=na_position
+        by=columns,
+        ascending=ascending,
+        na_position=na_position,
+        ignore_index=ignore_index,
     ).head(n)
 
 
-def _nlast(df, columns, n, ascending, na_position="last"):
+def _nlast(df, columns, n, ascending, na_position="last", ignore_index=False):
     return df.sort_values(
-        by=columns, ascending=ascending, na_position=na_position
+        by=columns,
+        ascending=ascending,
+        na_position=na_position,
+        ignore_index=ignore_index,
     ).tail(n)
 
 
 class NFirst(NLargest):
-    _parameters = ["frame", "n", "_columns", "ascending", "split_every", "na_position"]
+    _parameters = [
+        "frame",
+        "n",
+        "_columns",
+        "ascending",
+        "split_every",
+        "na_position",
+        "ignore_index",
+    ]
     _defaults = {
         "n": 5,
         "_columns": None,
         "ascending": None,
         "split_every": None,
         "na_position": "last",
+        "ignore_index": False,
     }
     reduction_chunk = staticmethod(_nfirst)
     reduction_aggregate = staticmethod(_nfirst)
@@ -1373,6 +1388,7 @@ class NFirst(NLargest):
         return {
             "ascending": self.ascending,
             "na_position": self.na_position,
+            "ignore_index": self.ignore_index,
             **super().chunk_kwargs,
         }
 
